@@ -37,8 +37,22 @@ func c06Panic(kind int) {
 		panic(c06Struct{7})
 	case 4:
 		panic(nil)
+	case 5: // an error value that other code compares against
+		panic(error(context.Canceled))
+	case 6:
+		panic(error(c06Wrap{context.Canceled}))
+	case 7:
+		panic(error(c06Wrap{ErrRestartNow}))
 	}
 }
+
+const c06Kinds = 8
+
+// an error wrapping another one
+type c06Wrap struct{ err error }
+
+func (w c06Wrap) Error() string { return "wrapped" }
+func (w c06Wrap) Unwrap() error { return w.err }
 
 func c06Module() (*Module, chan *ModuleError) {
 	SetStdErrReporting(false)
@@ -65,7 +79,7 @@ func c06CheckReported(ch chan *ModuleError, tag string) {
 func VerifC06_Worker() {
 	rt.SchedYieldOnly(true)
 	m, ch := c06Module()
-	kind := rt.Choice("panic", 5)
+	kind := rt.Choice("panic", c06Kinds)
 	blocking := rt.Bool("blocking")
 	pre := atomic.LoadInt32(m.workerCnt)
 	fn := func(ctx context.Context) error {
@@ -95,7 +109,7 @@ func VerifC06_Worker() {
 func VerifC06_ServiceWorker() {
 	rt.SchedYieldOnly(true)
 	m, ch := c06Module()
-	kind := rt.Choice("panic", 5)
+	kind := rt.Choice("panic", c06Kinds)
 	runs := 0
 	m.StartServiceWorker("sw", time.Millisecond, func(ctx context.Context) error {
 		runs++
@@ -125,7 +139,7 @@ func VerifC06_MicroTask() {
 	rt.SchedYieldOnly(true)
 	m, ch := c06Module()
 	atomic.StoreInt32(microTasks, 0)
-	kind := rt.Choice("panic", 5)
+	kind := rt.Choice("panic", c06Kinds)
 	err := m.RunHighPriorityMicroTask("mt", func(ctx context.Context) error {
 		c06Panic(kind)
 		return nil
@@ -144,7 +158,7 @@ func VerifC06_MicroTask() {
 func VerifC06_Task() {
 	rt.SchedYieldOnly(true)
 	m, ch := c06Module()
-	kind := rt.Choice("panic", 5)
+	kind := rt.Choice("panic", c06Kinds)
 	runs := 0
 	t := m.NewTask("t", func(ctx context.Context, t *Task) error {
 		runs++
@@ -182,7 +196,7 @@ func VerifC06_Lifecycle() {
 	ch := make(chan *ModuleError, 8)
 	SetErrorReportingChannel(ch)
 	phase := rt.Choice("phase", 3)
-	kind := rt.Choice("panic", 5)
+	kind := rt.Choice("panic", c06Kinds)
 	cb := func(p int) func() error {
 		return func() error {
 			if p == phase {
@@ -224,7 +238,7 @@ func VerifC06_Lifecycle() {
 func VerifC06_AmongHealthy() {
 	rt.SchedYieldOnly(true)
 	m, ch := c06Module()
-	kind := rt.Choice("panic", 5)
+	kind := rt.Choice("panic", c06Kinds)
 	pos := rt.Choice("pos", 3)
 	done := 0
 	for i := 0; i < 3; i++ {
